@@ -356,6 +356,61 @@ fn empty_encodings<D: KvDatabase>(name: &str, open: &dyn Fn() -> D) -> u64 {
     checks
 }
 
+/// a second column with exactly the key layout of WideSuf (same key type, same discriminants): only the column differs
+#[derive(Debug, Clone, Copy, PartialEq, Eq, PartialOrd, Ord, Hash, Identifiable)]
+#[stable_type_id_crate(qbice_stable_type_id)]
+struct WideSufTwin;
+impl WideColumn for WideSufTwin {
+    type Discriminant = u8;
+    type Key = Vec<u8>;
+    fn discriminant_encoding() -> DiscriminantEncoding { DiscriminantEncoding::Suffixed }
+}
+impl WideColumnValue<WideSufTwin> for String { fn discriminant() -> u8 { 0 } }
+impl WideColumnValue<WideSufTwin> for u64 { fn discriminant() -> u8 { 1 } }
+#[derive(Debug, Clone, Copy, PartialEq, Eq, PartialOrd, Ord, Hash, Identifiable)]
+#[stable_type_id_crate(qbice_stable_type_id)]
+struct SetBytesTwin;
+impl KeyOfSetColumn for SetBytesTwin { type Key = Vec<u8>; type Element = Vec<u8>; }
+
+/// directed: two columns whose encoded keys are byte-identical, written back to back (direct batch and serialization buffer):
+/// columns never interfere, however adjacent and however similar their operations are
+fn twin_columns_back_to_back<D: KvDatabase>(name: &str, open: &dyn Fn() -> D) -> u64 {
+    let mut checks = 0;
+    for via_buffer in [false, true] {
+        let how = if via_buffer { "through one serialization buffer" } else { "in one direct batch" };
+        let db = open();
+        let k = vec![if via_buffer { 1u8 } else { 2u8 }, 9];
+        let mut b = db.write_batch();
+        let mut buf = db.serialization_buffer();
+        macro_rules! both { ($m:ident :: <$($t:ty),*> ($($a:expr),*)) => { if via_buffer { buf.$m::<$($t),*>($($a),*); } else { b.$m::<$($t),*>($($a),*); } } }
+        both!(put::<WideSuf, String>(&k, &"Alice".to_string()));
+        both!(put::<WideSufTwin, String>(&k, &"Alice B.".to_string()));
+        both!(put::<WideSufTwin, u64>(&k, &7));
+        both!(put::<WideSuf, u64>(&k, &8));
+        both!(insert_member::<SetBytes>(&k, &vec![1u8]));
+        both!(insert_member::<SetBytesTwin>(&k, &vec![1u8]));
+        both!(delete_member::<SetBytesTwin>(&k, &vec![1u8]));
+        both!(insert_member::<SetBytesTwin>(&k, &vec![2u8]));
+        both!(delete::<WideSufTwin, u64>(&k));
+        if via_buffer { b.consume_serialization_buffer(buf); } else { drop(buf); }
+        b.commit();
+        let desc = format!("{how}: put WideSuf/String k=Alice; put WideSufTwin/String k=\"Alice B.\"; put Twin/u64 k=7; put WideSuf/u64 k=8; insert SetBytes k/[1]; insert Twin k/[1]; delete Twin k/[1]; insert Twin k/[2]; delete Twin/u64 k; commit");
+        let g = db.get_wide_column::<WideSuf, String>(&k); checks += 1;
+        if g.as_deref() != Some("Alice") { found(&format!("{name}: a put to another column changed this column's value"), &desc, &format!("WideSuf/String = {g:?}"), "Some(\"Alice\")"); }
+        let g = db.get_wide_column::<WideSufTwin, String>(&k); checks += 1;
+        if g.as_deref() != Some("Alice B.") { found(&format!("{name}: a put next to a put of the same key bytes in another column is lost"), &desc, &format!("WideSufTwin/String = {g:?}"), "Some(\"Alice B.\")"); }
+        let g = db.get_wide_column::<WideSuf, u64>(&k); checks += 1;
+        if g != Some(8) { found(&format!("{name}: twin columns interfere (u64 value)"), &desc, &format!("WideSuf/u64 = {g:?}"), "Some(8)"); }
+        let g = db.get_wide_column::<WideSufTwin, u64>(&k); checks += 1;
+        if g.is_some() { found(&format!("{name}: twin columns interfere (deleted u64 value)"), &desc, &format!("WideSufTwin/u64 = {g:?}"), "None"); }
+        let got: BTreeSet<Vec<u8>> = db.scan_members::<SetBytes>(&k).collect(); checks += 1;
+        if got != BTreeSet::from([vec![1u8]]) { found(&format!("{name}: twin set columns interfere"), &desc, &format!("SetBytes = {got:?}"), "{[1]}"); }
+        let got: BTreeSet<Vec<u8>> = db.scan_members::<SetBytesTwin>(&k).collect(); checks += 1;
+        if got != BTreeSet::from([vec![2u8]]) { found(&format!("{name}: twin set columns interfere"), &desc, &format!("SetBytesTwin = {got:?}"), "{[2]}"); }
+    }
+    checks
+}
+
 /// directed: operations on members / keys that were NEVER committed, several to one slot inside one DIRECT batch (no buffer):
 /// the later operation wins whatever the committed store says about the slot
 fn fresh_slot_twice_in_one_direct_batch<D: KvDatabase>(name: &str, open: &dyn Fn() -> D) -> u64 {
@@ -546,6 +601,8 @@ fn main() {
         n += empty_encodings("rocksdb", &|| RocksDB::open(&p1d, Plugin::default()).unwrap());
         let p1e = base.join("rocks_all_empty");
         n += all_empty_batch("rocksdb", &|| RocksDB::open(&p1e, Plugin::default()).unwrap());
+        let p1i = base.join("rocks_twins");
+        n += twin_columns_back_to_back("rocksdb", &|| RocksDB::open(&p1i, Plugin::default()).unwrap());
         let p1h = base.join("rocks_fresh_slot");
         n += fresh_slot_twice_in_one_direct_batch("rocksdb", &|| RocksDB::open(&p1h, Plugin::default()).unwrap());
         let p1g = base.join("rocks_signed");
@@ -564,6 +621,8 @@ fn main() {
         n += empty_encodings("fjall", &|| Fjall::open(&p2d, Plugin::default()).unwrap());
         let p2e = base.join("fjall_all_empty");
         n += all_empty_batch("fjall", &|| Fjall::open(&p2e, Plugin::default()).unwrap());
+        let p2i = base.join("fjall_twins");
+        n += twin_columns_back_to_back("fjall", &|| Fjall::open(&p2i, Plugin::default()).unwrap());
         let p2h = base.join("fjall_fresh_slot");
         n += fresh_slot_twice_in_one_direct_batch("fjall", &|| Fjall::open(&p2h, Plugin::default()).unwrap());
         let p2g = base.join("fjall_signed");
